@@ -123,6 +123,11 @@ func ASCII85Decode(data []byte) ([]byte, error) {
 			break
 		}
 
+		// A final group of a single digit encodes no bytes and is malformed
+		if len(digits) == 1 {
+			return nil, fmt.Errorf("invalid ASCII85 data: final group has only one character")
+		}
+
 		// Pad incomplete group with 'u' (84 = highest ASCII85 value)
 		// This is required for correct decoding
 		numBytes := len(digits) - 1
@@ -136,10 +141,14 @@ func ASCII85Decode(data []byte) ([]byte, error) {
 
 		// Convert base-85 to binary
 		// Each group of 5 digits represents 4 bytes
-		value := uint32(0)
+		value64 := uint64(0)
 		for _, d := range digits {
-			value = value*85 + uint32(d)
+			value64 = value64*85 + uint64(d)
 		}
+		if value64 > 0xFFFFFFFF {
+			return nil, fmt.Errorf("invalid ASCII85 data: group value exceeds 2^32-1")
+		}
+		value := uint32(value64)
 
 		// Extract bytes (big-endian)
 		for j := 0; j < numBytes; j++ {
